@@ -4,9 +4,17 @@ declarative ownership semantics C08/Spec.v: no diagnostic => on no path a non-co
 after it was moved, and no never-used value goes out of scope that can be neither dropped nor
 destructed.  Tie: translator (the Lowered every function's borrow check receives, printed from the db
 on every run) + comparison of the model's diagnostics with the real ones (C08/Corr.v).
-First half (exploration): impl-level oracle in harness/h08 - every generated crate without error
-diagnostics goes through Sierra generation, ProgramRegistry, metadata and CASM under four
-configurations without error or panic; every crate with an injected violation is rejected."""
+The extra borrow_check_possible_withdraw_gas (parameters of functions on a Cost cycle) is modelled
+and compared as well.
+Exploration, impl-level oracle in harness/h08 (decides the property on the code):
+ (i)   every crate without error diagnostics goes through Sierra generation, ProgramRegistry,
+       metadata and CASM under four configurations without error or panic (incl. crates with
+       hand-written Destruct / PanicDestruct impls that drop several members implicitly);
+ (ii)  every crate with an injected violation (use after move incl. re-binding of a match / if-let /
+       let-else scrutinee; missing drop over {no capability, PanicDestruct only} x {return, panic,
+       panicable call}; out-of-gas drops in loops / recursion when gas is on) has an error;
+ (iii) path oracle (spec.rs): no function of a crate without error diagnostics has a path with a
+       double move or an undroppable unused value (forward value semantics, from the property text)."""
 import json
 import os
 
@@ -17,7 +25,8 @@ TRUSTED = [
     "hand model C08/Borrow.v of borrow_check/{mod,demand}.rs + analysis/backward.rs (OrderedHashMap order "
     "abstracted), tied to the code by the per-run comparison of diagnostics on the translated Lowered of every "
     "function; declarative semantics C08/Spec.v (what a use after move / an undroppable drop is)",
-    "harness/h08 (translator of Lowered into Coq terms, program generator and mutations, impl-level oracle), "
+    "harness/h08 (translator of Lowered into Coq terms, program generator and mutations, compile oracle, path "
+    "oracle spec.rs - a Rust transcription of C08/Spec.v run on the real Lowered), "
     "lib/vlib.py",
 ]
 THEOREMS = ["C08_borrow_sound", "C08_moved_detected", "C08_example_moved_detected_applies", "C08_example_use_after_move", "C08_example_not_dropped", "C08_example_diamond"]
